@@ -120,7 +120,7 @@ func GenStream(r *payload.SplitMix, max int) Stream {
 	big := 0
 	for a := 0; a < nact; a++ {
 		kind := uint8(1 + r.Intn(7))
-		act := r.Intn(23)
+		act := r.Intn(25)
 		if effMax >= 1<<20 && big >= 2 && (act == 1 || act == 2) {
 			act = 0 // keep default-max streams affordable
 		}
@@ -233,6 +233,45 @@ func GenStream(r *payload.SplitMix, max int) Stream {
 			st.Edges = append(st.Edges, len(b))
 			desc = append(desc, fmt.Sprintf("long-header(s%d,m%d,len%d,hdr%d)", sid, mid, n, len(hdr)))
 			mid++
+		case act == 24: // the kind changes inside a packet that carries the control bit on some frame
+			nf := 2 + r.Intn(3)
+			ctlAt := r.Intn(nf)
+			chgAt := 1 + r.Intn(nf-1)
+			k2 := uint8(1 + (int(kind)+r.Intn(6))%7)
+			if k2 == kind {
+				k2 = kind%7 + 1
+			}
+			for f := 0; f < nf; f++ {
+				kk := kind
+				if f >= chgAt {
+					kk = k2
+				}
+				emit(refwire.Frame{Stream: sid, Message: mid, Kind: kk, Done: f == nf-1, Control: f == ctlAt, Data: body(r.Intn(12))})
+			}
+			mid++
+			desc = append(desc, fmt.Sprintf("kind-change@%d-in-control-packet(ctl@%d,frames%d)", chgAt, ctlAt, nf))
+			a = nact // the stream ends with an error there
+		case act == 23: // an unfinished packet that nearly fills the maximum, discarded by a higher id whose packet nearly fills it too
+			d1 := effMax*(5+r.Intn(5))/10 + r.Intn(3)
+			d2 := effMax*(5+r.Intn(5))/10 + r.Intn(3)
+			if effMax >= 1<<20 {
+				d1, d2 = 600+r.Intn(400), 600+r.Intn(400) // keep default-max streams affordable
+			}
+			if d1 > effMax {
+				d1 = effMax
+			}
+			if d2 > effMax {
+				d2 = effMax
+			}
+			emit(refwire.Frame{Stream: sid, Message: mid, Kind: kind, Done: false, Data: body(d1)})
+			mid++
+			if r.Intn(3) == 0 {
+				sid++
+				mid = 1
+			}
+			emit(refwire.Frame{Stream: sid, Message: mid, Kind: kind, Done: true, Data: body(d2)})
+			mid++
+			desc = append(desc, fmt.Sprintf("unfinished(len%d)-discarded-by-higher-id(len%d)", d1, d2))
 		case act == 22: // the largest message id of one stream, then ordinary ids of the next stream (and the one after)
 			emit(refwire.Frame{Stream: sid, Message: ^uint64(0) - 1, Kind: kind, Done: true, Data: body(r.Intn(10))})
 			emit(refwire.Frame{Stream: sid, Message: ^uint64(0), Kind: kind, Done: true, Data: body(r.Intn(10))})
